@@ -227,12 +227,18 @@ def check(c):
     rs = c.func('task_state', 'TaskState.reset')
     for s in c.stores(rs, 'status'):
         c.guard('C09.forced-refusal', s.node, [AnyOf(
-            '!forced', "!(req in ['submitted', 'running'])")], rs)
-    req = [n for n in c.idx.walk(rs.node) if isinstance(n, ast.Assign)
-           and norm(n.targets[0]) == 'req']
-    c.ob('C09.forced-refusal', f'{rs.fq} :: req = status',
-         len(req) == 1 and norm(req[0].value) == 'status',
-         c.where(rs.node, rs), '')
+            '!forced', "!(status in ['submitted', 'running'])")], rs)
+    # the status tested is the one requested (the parameter, before the
+    # function re-binds it to the current status for a flag-only reset);
+    # a plain alias `req = status` is seen through by the normal form
+    tests = c.find(rs, "status in ['submitted', 'running']")
+    c.floor('C09.forced-refusal', 'requested-status test', len(tests), 1)
+    rebinds = [n for n in c.idx.walk(rs.node) if isinstance(n, ast.Name)
+               and n.id == 'status' and isinstance(n.ctx, ast.Store)]
+    for t in tests:
+        c.ob('C09.forced-refusal', c.key(t, rs) + ' tests the requested '
+             'status', all(r.lineno > t.lineno for r in rebinds),
+             c.where(t, rs), '')
     sr = c.func('task_proxy', 'TaskProxy.state_reset')
     ok = bool(c.find(sr, 'self.state.reset(status, is_held, is_queued, '
                      'is_runahead, forced)'))
